@@ -8,6 +8,8 @@ stored — and `parseBlockNumberFromKey`, by which `LoadLastBlock` / `LoadFirstB
 * the key is the prefix byte, eight big-endian bytes of the height, eight of the index: 17 bytes (`tie_tx_index_key`);
 * **two positions never share a key** (`tie_tx_index_key_injective`): "found by (block, index)" cannot return the transaction of
   another position;
+* big-endian height bytes are ordered as the heights (`tie_height_bytes_order`): the first / last key under the prefix is that of the
+  lowest / highest indexed block;
 * the height read back from a key is the height it was built from (`tie_parse_block_number_roundtrip`): the resume point of the
   indexer service is a height that was really indexed.
 -/
@@ -151,6 +153,79 @@ theorem tie_parse_block_number_refuses (k : List Nat) (h : k.length ≠ 17) :
   unfold indexer_parseBlockNumberFromKey
   have : ¬ ((k.length : Int) = 17) := by omega
   simp [this]
+
+/-- **big-endian height bytes are ordered as the heights**: in the byte order of the key-value store the index keys of a lower
+    block come first, so the first / last key under the prefix (`LoadFirstBlock` / `LoadLastBlock`) belongs to the lowest / highest indexed block -/
+theorem tie_height_bytes_order (a b : Nat) (ha : a < 2^64) (hb : b < 2^64) (h : a < b) : Go.u64ToBe a < Go.u64ToBe b := by
+  have ea := beToU64_u64ToBe a ha
+  have eb := beToU64_u64ToBe b hb
+  rw [u64ToBe_eq a] at ea ⊢
+  rw [u64ToBe_eq b] at eb ⊢
+  unfold Go.beToU64 at ea eb
+  simp only [List.isEmpty_cons, Bool.false_eq_true, if_false, List.foldl_cons, List.foldl_nil, Nat.zero_mul, Nat.zero_add, Nat.mod_mod] at ea eb
+  have a0 := Nat.mod_lt a (show 0 < 256 by decide)
+  have a1 := Nat.mod_lt (a / 256) (show 0 < 256 by decide)
+  have a2 := Nat.mod_lt (a / 65536) (show 0 < 256 by decide)
+  have a3 := Nat.mod_lt (a / 16777216) (show 0 < 256 by decide)
+  have a4 := Nat.mod_lt (a / 4294967296) (show 0 < 256 by decide)
+  have a5 := Nat.mod_lt (a / 1099511627776) (show 0 < 256 by decide)
+  have a6 := Nat.mod_lt (a / 281474976710656) (show 0 < 256 by decide)
+  have a7 := Nat.mod_lt (a / 72057594037927936) (show 0 < 256 by decide)
+  have b0 := Nat.mod_lt b (show 0 < 256 by decide)
+  have b1 := Nat.mod_lt (b / 256) (show 0 < 256 by decide)
+  have b2 := Nat.mod_lt (b / 65536) (show 0 < 256 by decide)
+  have b3 := Nat.mod_lt (b / 16777216) (show 0 < 256 by decide)
+  have b4 := Nat.mod_lt (b / 4294967296) (show 0 < 256 by decide)
+  have b5 := Nat.mod_lt (b / 1099511627776) (show 0 < 256 by decide)
+  have b6 := Nat.mod_lt (b / 281474976710656) (show 0 < 256 by decide)
+  have b7 := Nat.mod_lt (b / 72057594037927936) (show 0 < 256 by decide)
+  generalize a % 256 = x0 at *
+  generalize a / 256 % 256 = x1 at *
+  generalize a / 65536 % 256 = x2 at *
+  generalize a / 16777216 % 256 = x3 at *
+  generalize a / 4294967296 % 256 = x4 at *
+  generalize a / 1099511627776 % 256 = x5 at *
+  generalize a / 281474976710656 % 256 = x6 at *
+  generalize a / 72057594037927936 % 256 = x7 at *
+  generalize b % 256 = y0 at *
+  generalize b / 256 % 256 = y1 at *
+  generalize b / 65536 % 256 = y2 at *
+  generalize b / 16777216 % 256 = y3 at *
+  generalize b / 4294967296 % 256 = y4 at *
+  generalize b / 1099511627776 % 256 = y5 at *
+  generalize b / 281474976710656 % 256 = y6 at *
+  generalize b / 72057594037927936 % 256 = y7 at *
+  subst ea eb
+  rcases Nat.lt_trichotomy x7 y7 with h7 | h7 | h7
+  · exact List.cons_lt_cons_iff.mpr (Or.inl h7)
+  · refine List.cons_lt_cons_iff.mpr (Or.inr ⟨h7, ?_⟩)
+    rcases Nat.lt_trichotomy x6 y6 with h6 | h6 | h6
+    · exact List.cons_lt_cons_iff.mpr (Or.inl h6)
+    · refine List.cons_lt_cons_iff.mpr (Or.inr ⟨h6, ?_⟩)
+      rcases Nat.lt_trichotomy x5 y5 with h5 | h5 | h5
+      · exact List.cons_lt_cons_iff.mpr (Or.inl h5)
+      · refine List.cons_lt_cons_iff.mpr (Or.inr ⟨h5, ?_⟩)
+        rcases Nat.lt_trichotomy x4 y4 with h4 | h4 | h4
+        · exact List.cons_lt_cons_iff.mpr (Or.inl h4)
+        · refine List.cons_lt_cons_iff.mpr (Or.inr ⟨h4, ?_⟩)
+          rcases Nat.lt_trichotomy x3 y3 with h3 | h3 | h3
+          · exact List.cons_lt_cons_iff.mpr (Or.inl h3)
+          · refine List.cons_lt_cons_iff.mpr (Or.inr ⟨h3, ?_⟩)
+            rcases Nat.lt_trichotomy x2 y2 with h2 | h2 | h2
+            · exact List.cons_lt_cons_iff.mpr (Or.inl h2)
+            · refine List.cons_lt_cons_iff.mpr (Or.inr ⟨h2, ?_⟩)
+              rcases Nat.lt_trichotomy x1 y1 with h1 | h1 | h1
+              · exact List.cons_lt_cons_iff.mpr (Or.inl h1)
+              · refine List.cons_lt_cons_iff.mpr (Or.inr ⟨h1, ?_⟩)
+                refine List.cons_lt_cons_iff.mpr (Or.inl ?_)
+                omega
+              · omega
+            · omega
+          · omega
+        · omega
+      · omega
+    · omega
+  · omega
 
 example : indexer_TxIndexKey 258 3 = some [2, 0, 0, 0, 0, 0, 0, 1, 2, 0, 0, 0, 0, 0, 0, 0, 3] := by decide
 
